@@ -3,8 +3,10 @@
 package webdav
 
 import (
+	"encoding/xml"
 	"strings"
 
+	"github.com/emersion/go-webdav/internal"
 	vrt "github.com/emersion/go-webdav/internal/zz_verifrt"
 )
 
@@ -58,10 +60,11 @@ func VerifH_C17_NoDisclosure() {
 // tag, otherwise 412 (400 for a malformed tag against an existing resource)
 // and nothing changes.
 func VerifH_C04_Effect() {
+	verifOnlyMethods = []string{"PUT", "DELETE"}
+	defer func() { verifOnlyMethods = nil }()
 	run := runStep(false, true)
 	defer verifCleanup()
 	req := run.req
-	vrt.Assume(req.method == "PUT" || req.method == "DELETE")
 	exists := run.before.kind[req.pi] != kAbsent
 	cur := ""
 	if exists {
@@ -120,6 +123,83 @@ func VerifH_C04_Effect() {
 	}
 	// preconditions hold: the request behaves exactly like the unconditional one
 	checkStep(run, "C04")
+}
+
+// VerifH_C04_Tags: the entity tag a resource is announced with is one and
+// the same string in the answers to PUT, GET, HEAD and PROPFIND while the
+// resource stays unmodified: the first request is any GET, HEAD, PUT or
+// PROPFIND on any tree (checked against Stat inside checkStep), followed by
+// a HEAD, a GET and a PROPFIND Depth 0 of the same resource, whose tags must
+// equal the first answer's.
+func VerifH_C04_Tags() {
+	verifOnlyMethods = []string{"GET", "HEAD", "PUT", "PROPFIND"}
+	defer func() { verifOnlyMethods = nil }()
+	run := runStep(false, false)
+	defer verifCleanup()
+	checkStep(run, "C04tags")
+	req := run.req
+	if run.rec.code >= 300 || run.after.kind[req.pi] != kFile {
+		return
+	}
+	first := run.rec.hdr.Get("ETag")
+	if req.method == "PROPFIND" {
+		first = ""
+		for k := range run.ms.Responses {
+			resp := &run.ms.Responses[k]
+			if len(resp.Hrefs) == 1 && resp.Hrefs[0].Path == req.path {
+				var ge internal.GetETag
+				if err := resp.DecodeProp(&ge); err == nil {
+					first = internal.ETag(ge.ETag).String()
+				}
+			}
+		}
+	}
+	vrt.Assert(first != "", req.method+": a file is announced with an entity tag")
+	h := &Handler{FileSystem: LocalFileSystem(run.root)}
+	for _, m := range []string{"HEAD", "GET", "PROPFIND"} {
+		internal.VerifResetWire()
+		r2 := &verifReq{method: m, path: req.path, pi: req.pi, bodyFails: -1}
+		if m == "PROPFIND" {
+			r2.depth, r2.hasDepth = "0", true
+		}
+		rec := newVerifRecorder()
+		h.ServeHTTP(rec, r2.httpRequest(run.t))
+		if rec.code == 0 {
+			rec.code = 200
+		}
+		tag := rec.hdr.Get("ETag")
+		if m == "PROPFIND" {
+			tag = ""
+			var ms *internal.MultiStatus
+			if vrt.Symbolic() {
+				ms = internal.VerifServed
+			} else if rec.code == 207 {
+				ms = &internal.MultiStatus{}
+				if err := xml.Unmarshal([]byte(rec.body()), ms); err != nil {
+					vrt.Fail("207 body is not a readable multi-status: " + err.Error())
+				}
+			}
+			if ms != nil && len(ms.Responses) == 1 {
+				var ge internal.GetETag
+				if err := ms.Responses[0].DecodeProp(&ge); err == nil {
+					tag = internal.ETag(ge.ETag).String()
+				}
+			}
+		}
+		vrt.Assert(tag == first, "the tag announced by "+m+" equals the one announced by the earlier "+req.method)
+		// and it is accepted back: a conditional request carrying it proceeds
+		ok, err := ConditionalMatch(tag).MatchETag(mustUnquote(tag))
+		vrt.Assert(ok && err == nil, "an announced tag is accepted back in a conditional header")
+	}
+	vrt.Reach("C04tags/" + req.method + "/agree")
+}
+
+func mustUnquote(tag string) string {
+	var e internal.ETag
+	if err := e.UnmarshalText([]byte(tag)); err != nil {
+		vrt.Fail("announced tag is not a quoted string: " + tag)
+	}
+	return string(e)
 }
 
 func verifForm(v string) int {
